@@ -151,6 +151,9 @@ type propRun struct {
 
 func (r *propRun) exec() int {
 	def := r.def
+	if len(def.BPF) > 0 && len(def.Funcs) == 0 && len(def.Roots) == 0 {
+		return r.execLLVC()
+	}
 	prog, err := govc.Load(r.repo, def.Pkgs)
 	if err != nil {
 		fmt.Fprintln(os.Stderr, "load:", err)
